@@ -260,12 +260,15 @@ def r164(ctx, ut):
 
 
 # --------------------------------------------------------------------------- R16.5
-def guard_env(cname, other, same_type, same_sig):
+def guard_env(cname, other, same_type, same_sig, is_quantity=None):
     rel_t = 'eq' if same_type else 'lt'
     rel_s = 'eq' if same_sig else 'lt'
+    if is_quantity is None:
+        is_quantity = same_type
     return {('ord', 'type(self)', f'type({other})'): rel_t,
-            ('bool', f'isinstance({other}, {cname})'): same_type, ('bool', f'isinstance({other}, type(self))'): same_type,
-            ('bool', f'isinstance({other}, Quantity)'): same_type,
+            ('bool', f'isinstance({other}, {cname})'): is_quantity if cname == 'Quantity' else same_type,
+            ('bool', f'isinstance({other}, type(self))'): same_type,
+            ('bool', f'isinstance({other}, Quantity)'): is_quantity,
             ('ord', 'self._sisig', f'{other}._sisig'): rel_s, ('ord', 'self.sisig()', f'{other}.sisig()'): rel_s,
             ('ord', 'self._sisig', f'{other}.sisig()'): rel_s, ('ord', 'self.sisig()', f'{other}._sisig'): rel_s}
 
@@ -275,14 +278,16 @@ def r165(ctx, ut):
     ctx.rule('R16.5', 'type guards of + - < <= > >= (Quantity, SI): refuse exactly the incompatible operands; == / != answer False / True there')
     for cname in ('Quantity', 'SI'):
         ci = prog.cls(cname)
-        combos = [(True, True), (False, True)] if cname == 'Quantity' else list(itertools.product((True, False), repeat=2))
+        # Quantity: the other operand is the same quantity class / another quantity class with the same signature (Energy ~ Torque) /
+        # another quantity class with another signature; in all three it *is* a Quantity
+        combos = [(True, True), (False, True), (False, False)] if cname == 'Quantity' else list(itertools.product((True, False), repeat=2))
         tables = {}
         for meth in GUARDED + ('__eq__', '__ne__'):
             fn = prog.method(cname, meth, inherited=False)
             other = fn.args.args[1].arg if len(fn.args.args) > 1 else 'other'
             row = {}
             for (st, ss) in combos:
-                ge = GuardEval(prog, cname, guard_env(cname, other, st, ss))
+                ge = GuardEval(prog, cname, guard_env(cname, other, st, ss, True if cname == 'Quantity' else None))
                 r = eval_decision_list(body_of(fn), ge)
                 ctx.examined()
                 row[(st, ss)] = r
